@@ -44,6 +44,17 @@ def runs(rnd, n, lens=None, k=3):
     return bytes(out[:n])
 
 
+def runs4(rnd, n, k=None):
+    """Runs of exactly four equal bytes back to back (aaaabbbbcccc...): the run-length stage expands the input
+    by 25 %, its worst case."""
+    k = k or rnd.choice([2, 3, 5, 17, 200])
+    syms = rnd.sample(range(256), k)
+    unit = b''.join(bytes([c]) * 4 for c in syms)
+    if rnd.random() < 0.3:
+        unit = unit[:4 * k - rnd.randint(0, 3)] + bytes([syms[0] ^ 0x55])
+    return (unit * (n // len(unit) + 1))[:n]
+
+
 def fib(n, a=b'a', b=b'b'):
     x, y = a, b
     while len(y) < n:
@@ -211,7 +222,7 @@ def bwt_designed(rnd, n, ratio=0.618, K=40):
     return bytes(out).translate(bytes((base + c) & 0xff for c in range(256)))
 
 
-FAMILIES = ['uniform', 'k2', 'k3', 'k4', 'k16', 'text', 'runs', 'onebyte', 'fib',
+FAMILIES = ['runs4', 'uniform', 'k2', 'k3', 'k4', 'k16', 'text', 'runs', 'onebyte', 'fib',
             'tandem', 'period', 'allbytes', 'sorted', 'skewed', 'boundary', 'concat', 'tiny']
 
 
@@ -224,6 +235,8 @@ def make(rnd, family, n, level=1):
         return textlike(rnd, n)
     if family == 'runs':
         return runs(rnd, n)
+    if family == 'runs4':
+        return runs4(rnd, n)
     if family == 'onebyte':
         return bytes([rnd.randrange(256)]) * n
     if family == 'fib':
